@@ -32,6 +32,7 @@ func checkC05(w *World, r *Report) {
 	r.Explanation = "Decides, for every template source, context value and compiled-data byte string, that eight enumerated families of panic sites in twig's own code are guarded on every path: (R05.1) every index into the parser's token slice is within bounds by an interval analysis over (tokenIndex, len(tokens)) with the EOF-sentinel, handler-entry and callee-preservation summaries; (R05.2) every kind-sensitive reflect.Value/Type call on render paths is dominated by a validity/kind test of the same value, and Set/SetMapIndex have type-provenance or AssignableTo guards; (R05.3) no Must* call takes a data-dependent argument; (R05.4) every single-result type assertion has a static reason to succeed and no map keyed by interface{} is indexed with template data; (R05.5) every integer division by a non-constant is dominated by a non-zero test; (R05.6) length prefixes read from input are validated before allocation; (R05.7) no lock can be left held; (R05.8) every non-constant size handed to make/reflect.MakeSlice/strings.Repeat/Grow is non-negative by a sign analysis of its SSA definition (counts, ordered differences, tests on every path, call sites, helper results; wrap-around is assumed away); (R05.9) every x[a:len(x)-k] / x[len(x)-k] is reached only where len(x) >= a+k is established. Not decided: termination (tokenizer loop progress, range(0, +Inf), recursion depth of the expression parser), arithmetic overflow feeding slice bounds, string slicing by computed byte offsets, panics raised by user callbacks, stack exhaustion in encoding/gob. Lock re-entrance (R05.7): no call made while a mutex is held can reach an acquisition of the same mutex."
 	r.Explanation += " Rules added in later rounds: (R05.12) no bound from narrow-integer arithmetic; (R05.13) constant look-arounds next to searched offsets are guarded; (R05.14) every key of a reflect MapIndex/SetMapIndex comes out of a map, is a basic Go value, or passed Comparable() on every path, and its type fits; (R05.15) necessary condition of termination for the tokenizer's scan loops: no way round the loop's exit test avoids a store of the position (feasibility over the 256 values of the current byte, byte-class predicates by truth table)."
 	r.Explanation += " Round 10: reflect Slice is legal on slices and strings only; (R05.16) loop counters are not advanced by a possibly-zero length; tagless switch cases refine index facts."
+	r.Explanation += " Round 11: (R05.17) indexes into []rune(s) are checked against the rune count."
 	r.RuleText = "obligation = one potential panic site of the enumerated families; non-trivial = sites that needed a dominance or interval argument (everything except constant/loop-bounded indexes)"
 	r.Trusted = []string{"go/types constant evaluation", "the Go runtime's definition of which reflect calls panic on which kinds"}
 
